@@ -95,6 +95,13 @@ class P(Prop):
             if rng.random() < 0.25:
                 # a different form at the bit-identical argument right afterwards: the value may depend on (form, v) only
                 out.append(K.kernel_case(NAME, self.forms(rng) + [v], cls="evaluate/same_v", libm=True))
+        # moderately close to 1 (|v-1| from 2^-8 down to 2^-45, beyond the ulp neighbourhood above): forms without a dominating
+        # constant, so that a relative error of x = -ln v of the order (v-1)^2 is visible
+        for _ in range(60 if tier == "quick" else 800):
+            w = rng.choice([1.0, -1.0]) * rng.choice([2.0 ** -rng.randint(8, 45), 10.0 ** -rng.uniform(2.0, 9.0), rng.uniform(1.7e-6, 1e-4), rng.uniform(1e-4, 1.2e-2)])
+            form = self.forms(rng)
+            form[0] = rng.choice([0.0, 0.0, 0.0, form[0] * 1e-6])
+            out.append(K.kernel_case(NAME, form + [1.0 + w], cls="evaluate/near_one_band", libm=True))
         # very small arguments with small coefficients: the terms are of ordinary size (u*v*e^x ~ u) but products such as u*v
         # are far below the normal range
         for _ in range(40 if tier == "quick" else 500):
